@@ -105,6 +105,18 @@ CLAIMS = {
    note="Only the code up to the first suspension of each handler is executed (every arm awaits the database); the SQL row filters by room behind the arms and the "
         "maintenance of allowed_room across several events (no revocation while connected) are outside the claim. tokio Mutex::lock is modelled uncontended.",
    design='DESIGN.md §3 C08'),
+ 'C10': dict(
+   level='model_checking',
+   text="Construction kernel: on one symbolic history (1-3 entries per list for fixed key patterns: enabled / disabled / re-enabled users, replaced rights, all-rows-"
+        "without-own-rows flags; 64-bit dates and flags symbolic; authorised by the admin) three builders of a Room are executed from MIR: the live add_* sequence, the "
+        "import path (RoomNode assembled in the order RoomNode::read / AuthorisationNode::read produce - their real sort_by comparator closures are interpreted on the "
+        "symbolic dates - then prepare_new_room and parse), and the reload path (the JSON tree LOAD_QUERY returns, lists ordered as its order_by directions demand, "
+        "through load_json / load_auth_from_json). z3 shows that import and reload succeed on every history the live path accepted and that can / is_admin / "
+        "is_user_valid_at agree on a symbolic (key, entity, date, right). Counterexamples are replayed through the public API on two real database instances "
+        "(mutations, restart, get_room_node + add_room_node).",
+   note="Only the ORDER in which the SQL layer presents entries is taken from the code (comparators interpreted, LOAD_QUERY directions parsed); that the reload JSON / exported "
+        "rows contain exactly the accepted entries is assumed (SQL is outside). JSON rows are modelled by uninterpreted field functions.",
+   design='DESIGN.md §3 C10'),
 }
 
 NA = {
